@@ -70,9 +70,11 @@ def trait_call(I, st, trait, callee, argv, depth, t, dty):
         st.ev('call', key, fa, span(t))
         yield st, Ok(fa[0][2][0])
         return
-    if key == 'Ksf::hash':
-        # receiver identity matters (C15): keep it as first argument
-        pass
+    if I.honest and key == 'KeGroup::diffie_hellman' and fa[0][0] == 'app' and fa[0][1] == 'KeGroup::public_key':
+        # DESIGN 3.2-7a: DH(sk_a, PK(sk_b)) = DH(sk_b, PK(sk_a)) (assumed group law; the pair is sorted)
+        st.ev('call', key, fa, span(t))
+        yield st, App('DH', *sorted([fa[1], fa[0][2][0]], key=repr))
+        return
     st.ev('call', key, fa, span(t))
     yield st, App(key, *fa)
 
@@ -503,7 +505,11 @@ def m_index(I, st, callee, argv, depth, t, dty):
         a, b = rb
         st.ev('slice', I.len_of(st, argv[0]), a, b, span(t))
         if callee['name'] == 'index_mut':
-            yield st, App('SliceMut', base, a, b)
+            r = argv[0]
+            if r is not None and r[0] == 'ref':
+                yield st, ('ref', r[1], r[2] + (('s', a, b),))
+            else:
+                yield st, App('SliceMut', base, a, b)
             return
         yield st, mk_slice(base, a, b)
         return
@@ -563,6 +569,24 @@ def m_slice_concat(I, st, callee, argv, depth, t, dty):
 @model('core::slice::to_vec', 'alloc::slice::to_vec', 'alloc::borrow::ToOwned::to_owned')
 def m_to_vec(I, st, callee, argv, depth, t, dty):
     yield st, bytes_of(st, argv[0])
+
+
+@model('core::num::leading_zeros')
+def m_lz(I, st, callee, argv, depth, t, dty):
+    v = freeze(st, argv[0])
+    if v[0] == 'int':
+        yield st, Int(64 - v[1].bit_length())
+    else:
+        yield st, App('leading_zeros', v)
+
+
+@model('core::num::saturating_sub')
+def m_satsub(I, st, callee, argv, depth, t, dty):
+    a, b = freeze(st, argv[0]), freeze(st, argv[1])
+    if a[0] == 'int' and b[0] == 'int':
+        yield st, Int(max(a[1] - b[1], 0))
+    else:
+        yield st, App('saturating_sub', a, b)
 
 
 @model('core::num::to_be_bytes')
@@ -730,11 +754,16 @@ def m_bxa(I, st, callee, argv, depth, t, dty):
 
 
 def mk_xor(a, b):
-    # zero is the unit of xor
+    # zero is the unit of xor; xor(p, xor(p, x)) = x (DESIGN 3.2-7d, an identity of XOR)
     if a is not None and a[0] == 'zero':
         return b
     if b is not None and b[0] == 'zero':
         return a
+    if b is not None and b[0] == 'app' and b[1] == 'xor':
+        if b[2][0] == a:
+            return b[2][1]
+        if b[2][1] == a:
+            return b[2][0]
     return App('xor', a, b)
 
 
@@ -1026,6 +1055,10 @@ def m_vfinal(I, st, callee, argv, depth, t, dty):
     inp = bytes_of(st, argv[1])
     ev = freeze(st, deref_val(st, argv[2]))
     term = App('Finalize', inp, state, ev)
+    if I.honest and state[0] == 'app' and state[1] == 'OprfClient' and ev[0] == 'app' and ev[1] == 'Eval' \
+            and ev[2][1] == App('Blind', inp, state[2][0]):
+        # DESIGN 3.2-7b: Finalize(pw, r, Eval(k, Blind(pw, r))) = F(k, pw) (OPRF unblinding; assumed)
+        term = App('F', ev[2][0], inp)
     for s2, name, payload in I.fork_result(st, App('voprf::finalize', inp, state, ev)):
         s2.ev('call', 'voprf::OprfClient::finalize', (inp, state, ev), span(t))
         yield s2, (Ok(term) if name == 'Ok' else Err(App('voprf::Error', Sym('finalize'))))
